@@ -123,7 +123,25 @@ fn oracle_delta(m: &AbsModel, entries: &[(String, Vec<i32>, String)], text: &str
     }
 }
 
-const HOSTILE: &[&str] = &["a,b", "\"q\"", "x y", "l\nm", "c\rd", "漢字", "𠮷", " lead", "trail ", "'", "a\"b,c\n", "ｶﾅ", ","];
+const HOSTILE: &[&str] = &[
+    "a,b", "\"q\"", "x y", "l\nm", "c\rd", "漢字", "𠮷", " lead", "trail ", "'", "a\"b,c\n", "ｶﾅ", ",",
+    // characters that CSV dialects, spreadsheets and hand-written readers treat specially at the start or the end of a field
+    "#火星猫", "#", "# x", ";a", "\ta", "a\t", "-", "=1+1", "+1", "@x", "\u{feff}a", "\\", "a\\", "''", "\"", "\"\"", " ", "\u{3000}",
+    "//", "NULL", "0", "\r", "\n", "\r\n", "a\u{85}b", "\u{2028}", "%", "|", "a b c", "\u{b}", "\u{1f}x", "x\u{7f}",
+];
+
+/// the `k`-th dictionary of the deterministic sweep: every printable ASCII punctuation character and some control / format
+/// characters as the first and as the last character of a word, and in the comment
+fn sweep_words(k: usize) -> Vec<(String, String)> {
+    let mut specials: Vec<char> = (0x21u8..0x7f).map(|b| b as char).filter(|c| !c.is_ascii_alphanumeric()).collect();
+    specials.extend(['\t', '\u{b}', '\u{c}', '\u{1f}', '\u{7f}', '\u{85}', '\u{a0}', '\u{feff}', '\u{2028}', '\u{3000}', '\u{200b}']);
+    specials
+        .iter()
+        .enumerate()
+        .filter(|(i, _)| i % 3 == k % 3)
+        .flat_map(|(_, &c)| [(format!("{c}あ"), format!("{c}")), (format!("い{c}"), format!("x{c}")), (format!("{c}"), String::new())])
+        .collect()
+}
 
 pub fn gen(out: &mut dyn std::io::Write, thorough: bool, seed: u64) {
     use crate::model::{gen_model, gen_text, GenOpts};
@@ -225,14 +243,21 @@ pub fn cli_roundtrip(thorough: bool, seed: u64) {
     for i in 0..n {
         let (mut m, alpha) = gen_model(&mut r, &opts);
         crate::model::gen_tag_models(&mut r, &mut m, &alpha, 2);
+        // the hostile words in rotation (every one of them in every run) plus random picks
+        let mut picks: Vec<(String, String)> = (0..3).map(|k| (HOSTILE[(i * 3 + k) % HOSTILE.len()].to_string(), HOSTILE[(i * 7 + k) % HOSTILE.len()].to_string())).collect();
         for _ in 0..r.range(1, 5) {
-            let w = r.pick(HOSTILE).to_string();
+            picks.push((r.pick(HOSTILE).to_string(), r.pick(HOSTILE).to_string()));
+        }
+        if i < 3 {
+            picks.extend(sweep_words(i));
+        }
+        for (w, c) in picks {
             if m.dict.iter().any(|d| d.0 == w) {
                 continue;
             }
             let l = w.chars().count();
             let ws: Vec<i32> = (0..=l).map(|_| *r.pick(&[i32::MAX, i32::MIN, -1, 0, 7, -32768, 65536])).collect();
-            m.dict.push((w, ws, r.pick(HOSTILE).to_string()));
+            m.dict.push((w, ws, c));
         }
         let bytes = m.to_bytes();
         let (mp, cp, op) = (dir.join("in.zst"), dir.join("dict.csv"), dir.join("out.zst"));
@@ -251,8 +276,23 @@ pub fn cli_roundtrip(thorough: bool, seed: u64) {
         let back = crate::cli::read_zst(&op);
         if o1.code != Some(0) || o2.code != Some(0) || back.as_deref() != Some(&bytes[..]) {
             fails += 1;
+            // shrink: the first dictionary entry that fails on its own, in a model that has nothing else
+            let mut minimal = String::new();
+            for d in &m.dict {
+                let m1 = crate::model::AbsModel { char_w: 1, type_w: 1, dict: vec![d.clone()], ..Default::default() };
+                let b1 = m1.to_bytes();
+                let _ = std::fs::remove_file(&op);
+                let _ = std::fs::remove_file(&cp);
+                crate::cli::write_zst(&mp, &b1);
+                let a = crate::cli::run_tool("manipulate_model", &["--model-in".into(), s(&mp), "--dump-dict".into(), s(&cp)], b"");
+                let b = crate::cli::run_tool("manipulate_model", &["--model-in".into(), s(&mp), "--replace-dict".into(), s(&cp), "--model-out".into(), s(&op)], b"");
+                if a.code != Some(0) || b.code != Some(0) || crate::cli::read_zst(&op).as_deref() != Some(&b1[..]) {
+                    minimal = format!("minimal: a dictionary with the single entry word={:?} weights={:?} comment={:?} is not reproduced; ", d.0, d.1, d.2);
+                    break;
+                }
+            }
             println!(
-                "FAIL case={i} model={} dump_exit={:?} replace_exit={:?} identical={} stderr={}",
+                "FAIL case={i} {minimal}model={} dump_exit={:?} replace_exit={:?} identical={} stderr={}",
                 m.to_text(),
                 o1.code,
                 o2.code,
